@@ -154,7 +154,7 @@ Inductive newstate :=              (* the processed third component of a rule *)
 | NsStates (l : list bytes).       (* a tuple of state names, '#pop' and '#push' *)
 
 Record rule := { r_re : regex; r_act : action; r_new : newstate }.
-Definition table := list (bytes * list rule).
+Definition rule_table := list (bytes * list rule).
 
 Definition token := (N * bytes * text)%type.      (* (offset, token type dotted name, value) *)
 Definition tok_val (t : token) : text := snd t.
@@ -199,7 +199,7 @@ Definition apply_new (ns : newstate) (s : stack) : stack :=
 
 Section Engine.
   Variable oracle : bytes -> text -> option (list token).
-  Variable tbl : table.
+  Variable tbl : rule_table.
 
   Fixpoint first_match (rules : list rule) (st : mstate) : option (rule * mstate * caps) :=
     match rules with
@@ -297,5 +297,5 @@ Section Engine.
 End Engine.
 
 (* DiffXLexer().get_tokens_unprocessed(text) *)
-Definition lex_default (oracle : bytes -> text -> option (list token)) (tbl : table) (t : text) : lexres :=
+Definition lex_default (oracle : bytes -> text -> option (list token)) (tbl : rule_table) (t : text) : lexres :=
   lex_text oracle tbl (S (length t)) [st_root] t.
